@@ -6,7 +6,9 @@ _counter = [0]
 
 # patterns in the model's language: alternation of literals, each optionally anchored with ^
 PATTERN_POOL = [[[True, "BEGIN"]], [[False, "GIN X"]], [[False, "B"]], [[True, "B"]], [[False, "END"], [False, "STOP"]],
-                [[True, "END"]], [[False, "X"]], [[False, "E"]], [[True, "#"]], [[False, "--"]], [[False, ""]]]
+                [[True, "END"]], [[False, "X"]], [[False, "E"]], [[True, "#"]], [[False, "--"]], [[False, ""]],
+                # literals that include the line terminator: the patterns see the line as it stands in the file
+                [[False, "END\n"]], [[False, "B\n"]], [[True, "\n"]]]
 
 
 def regex_of(pat, binary=False):
